@@ -84,6 +84,40 @@ pub fn pair<H: DShape, T: DShape>(g: &mut Grid, maxn: usize) {
     }
 }
 
+/// every ThinArc obtainable from the safe constructors records the real slice length, whatever an
+/// ExactSizeIterator claims (each `len()` answer scripted separately)
+fn ctor_scripts(g: &mut Grid) {
+    use crate::elems::*;
+    let vals = [0usize, 1, 2, 3, 5];
+    for &actual in &[0usize, 1, 2, 3] {
+        for &a in &vals {
+            for &b in &vals {
+                for &c in &vals {
+                    let case = format!("ThinArc::from_header_and_iter with {} real items and len() answering {:?}", actual, [a, b, c]);
+                    vrt::begin_execution();
+                    g.case(format!("ctor|{}|{}|{}|{}", actual, a, b, c), || case.clone());
+                    let items: Vec<ET> = cap(|| (0..actual).map(|i| ET::make(i as u32)).collect());
+                    let mut it = arena::suspend(|| Script::new(Vec::new(), Regime::Exact));
+                    it.items = arena::suspend(|| items.into());
+                    it.claims = arena::suspend(|| vec![a, b, c]);
+                    let r = catch(|| cap(|| ThinArc::from_header_and_iter(HT::make(), it)));
+                    if let Ok(t) = r {
+                        // the recorded length is read before anything walks the slice
+                        let rec = t.header.length;
+                        let fat_len = t.with_arc(|f| f.slice.len());
+                        if rec != actual || fat_len != actual {
+                            g.fail("ctor-length-mismatch", &case, format!("constructor returned a ThinArc recording length {} (fat view {}), the iterator produced {} items", rec, fat_len, actual));
+                            std::mem::forget(t);
+                            continue;
+                        }
+                        cap(|| drop(t));
+                    }
+                }
+            }
+        }
+    }
+}
+
 pub fn run(tier: &str) -> Vec<Grid> {
     let mut g = Grid::new("c10.into_thin", "header shape x element shape x true length 0..=N x recorded length in {0..=n+2, usize::MAX/2+1, usize::MAX} x {sole, co-owned}: into_thin succeeds iff the lengths agree; otherwise panics and the Arc passed in is still released properly");
     let gr = &mut g;
@@ -92,5 +126,7 @@ pub fn run(tier: &str) -> Vec<Grid> {
     } else {
         for_pairs!(pair, (gr, 4); [D1a1, D3a1, D2a2, D8a8, D16a16, D64a64, D0a8]);
     }
-    vec![g]
+    let mut c = Grid::new("c10.ctor", "ThinArc::from_header_and_iter under every 3-answer script of ExactSizeIterator::len() over {0,1,2,3,5} x real item count 0..=3: a returned ThinArc records the real length");
+    ctor_scripts(&mut c);
+    vec![g, c]
 }
